@@ -248,8 +248,15 @@ Section Let3.
 End Let3.
 
 (* ---------- the table of immediate words ---------- *)
+(* the four words of the enum builder (`enum`, `endenum` and the two field words, which close
+   the inner block of the enum and open the next one), by the name of their native function *)
+Definition enum_native (name : string) : bool :=
+  String.eqb name "enum" || String.eqb name "endenum" ||
+  String.eqb name "%enum-field" || String.eqb name "%enum-field-set".
+
+(* the words that open or close a context: the three bracket words and the enum builder *)
 Definition ctx_word (name : string) : bool :=
-  String.eqb name "#(" || String.eqb name "#)" || String.eqb name "~)".
+  String.eqb name "#(" || String.eqb name "#)" || String.eqb name "~)" || enum_native name.
 
 Section Top3.
   Variable fo : fops.
